@@ -341,6 +341,11 @@ def classify_loop(prog, an, next_bb):
                     problems.append("%s onto a sequence that outlives the loop" % s_)
             if re.search(r"fmt::|io::Write|print", t.get("resolved") or t.get("callee") or ""):
                 problems.append("formats/prints inside the loop")
+            # an insertion-ordered map/set (IndexMap, IndexSet, Vec-backed maps) remembers the order in which keys first
+            # arrive: filling one from a hash-ordered loop stores the hash order
+            cfull = (t.get("resolved") or "") + " " + (t.get("callee") or "")
+            if re.search(r"\bindexmap::|\bIndexMap\b|\bIndexSet\b|\bLinkedHashMap\b", cfull) and re.search(r"::(entry|insert|insert_full|extend|push|append|or_default|or_insert\w*)\b", cfull):
+                problems.append("fills an insertion-ordered map (%s) inside the loop: its key order becomes the hash order" % s_)
     # float accumulators: whole assignments to float locals that are live across the back edge
     for l in range(len(body.locals)):
         if body.locals[l]["ty"].get("k") == "float":
